@@ -72,6 +72,15 @@ func (f *Filename) Complete(match string) []Completion {
 }
 
 func (c *completion) skipPositional(s *parseState, n int) {
+	// a remaining (slice) positional absorbs all further arguments and is
+	// therefore never skipped
+	for i, arg := range s.positional {
+		if arg.isRemaining() && n > i {
+			n = i
+			break
+		}
+	}
+
 	if n >= len(s.positional) {
 		s.positional = nil
 	} else {
